@@ -444,6 +444,40 @@ def _none_or_number_slots(fn):
     return out
 
 
+def _g11(ctx):
+    rel = D + "efinix.py"
+    m = ctx.mod(rel)
+    fn = m.method("EFINIXPLL", "compute_config")
+    outs = [n for n in ast.walk(fn) if isinstance(n, ast.For) and "clks_out" in norm(n.iter) and isinstance(n.target, ast.Tuple) and
+            len(n.target.elts) == 2 and all(isinstance(t, ast.Name) for t in n.target.elts)]
+    # the loop that searches a divider per output: it contains a loop over divider candidates whose body divides by the candidate
+    found = []
+    for lp in outs:
+        cfg = lp.target.elts[1].id
+        for inner in [x for x in ast.walk(lp) if isinstance(x, ast.For) and x is not lp and isinstance(x.target, ast.Name)]:
+            cx = inner.target.id
+            if not any(isinstance(b, ast.BinOp) and isinstance(b.op, ast.Div) and norm(b.right) == cx for b in ast.walk(inner)):
+                continue
+            src = inner.iter
+            if isinstance(src, ast.Name):
+                defs = [a.value for a in ast.walk(lp) if isinstance(a, ast.Assign) and len(a.targets) == 1 and norm(a.targets[0]) == src.id and
+                        a.lineno < inner.lineno]
+                src_e = defs[-1] if defs else None
+            else:
+                src_e = src
+            found.append((lp, inner, cfg, src_e))
+    ctx.ob("G11", rel, "EFINIXPLL.compute_config", "per-output divider search:present", len(found) == 1,
+           f"{len(found)} loops over divider candidates inside the loop over the outputs (anchor changed)", fn)
+    for lp, inner, cfg, src_e in found:
+        ok = src_e is not None and any(isinstance(c, ast.Call) and norm(c.func).endswith("get_c_range") and
+                                       any(cfg in {x.id for x in ast.walk(a) if isinstance(x, ast.Name)} and "phase" in norm(a) for a in c.args)
+                                       for c in ast.walk(src_e))
+        ctx.ob("G11", rel, "EFINIXPLL.compute_config", "divider candidates = get_c_range(device, this output's phase)", ok,
+               "" if ok else f"`for {inner.target.id} in {norm(inner.iter)}` iterates {norm(src_e) if src_e is not None else 'a list defined outside the output loop'}: "
+                             f"not the dividers legal for {cfg}['phase'] -- a phase-shifted output gets a divider the device does not offer at that "
+                             f"phase, or a legal request is refused", inner)
+
+
 def _g10(ctx):
     from .. import pyconst
     rel = D + "xilinx_usp.py"
@@ -546,6 +580,9 @@ def run(ctx):
                            "" if ok else f"`{norm(n)}` is a{'n upper' if upper else ' lower'} bound of the search (window element "
                                          f"{'[0] in the denominator / [1] in the numerator' if upper else '[1] in the denominator / [0] in the numerator'}) "
                                          f"but rounds {'up' if is_ceil else 'down'}: the first value outside the window is searched and can be returned", n)
+    ctx.rule("G11", "Efinix PLL: the output dividers tried for an output are those legal for *that output's* phase (get_c_range(device, "
+                    "its phase)), not the list computed for another output (the legal divider set shrinks with the phase shift)", min_sites=2)
+    _g11(ctx)
     ctx.rule("G10", "UltraScale+ MMCM fractional settings: every value tried for CLKFBOUT_MULT_F and for CLKOUT0_DIVIDE_F lies in the "
                     "documented range 2.0 .. 128.0 on the 0.125 grid, and both ends are tried (values are computed from the source by "
                     "constant propagation, generators included)", min_sites=2)
